@@ -2,8 +2,11 @@
 import itertools, sys, os, copy as pycopy
 import numpy as np
 from vlib import coqterm as ct
+import checks.C04 as C04mod
 from checks.C04 import (dense, is_gauss_int, zlist, natlist, mk_fields, qubit, build_gate, spec_particles,
-                        wire_of, ref_embed, rand_phase_perm, mat_spec, reach, follow, apply_mutation)
+                        wire_of, ref_embed, rand_phase_perm, mat_spec, reach, follow, apply_mutation,
+                        fidx, field_mode, rand_fmode, rand_layout, share_patterns, orders_with_repeats, jcopy,
+                        rand_dense_unitary, ref_mode)
 
 sys.path.insert(0, os.path.join(os.path.dirname(os.path.dirname(os.path.abspath(__file__))), "gen"))
 
@@ -15,6 +18,7 @@ SIG_EINSUM = "contract_einsum:label-position-slip-on-idle-wire"
 SIG_CTOR = "Circuit.__init__:gates-captured-by-reference"
 SIG_ARRAY = "by-value:array-attribute-shared-with-circuit-copy"
 SIG_PREP = "as_tensornet:prepare-gate-is-the-rank-one-map-not-the-unitary-of-as_matrix"
+SIG_ROTNAME = "as_tensornet:rotation-gates-with-nearly-equal-angles-share-a-tensor-name"
 
 
 def jsonable(x):
@@ -34,8 +38,8 @@ def rand_spec(rng, sizes, exact, pool=None):
     total = sum(sizes)
     kinds = ["X", "Y", "Z", "S", "Gen1", "Gen2", "C1", "C1", "C2", "iSwap", "Mux", "CC", "I", "Sdg"]
     if not exact:
-        kinds += ["H", "T", "Rx", "Ry", "Rz", "Rxx", "Ryy", "Rzz", "Phase", "Sx", "CH", "CRz", "Tdg", "Rot", "Prep2", "CRot"]
-    need_of = {"Gen2": 2, "C1": 2, "C2": 3, "iSwap": 2, "Mux": 2, "CC": 3, "Rxx": 2, "Ryy": 2, "Rzz": 2,
+        kinds += ["H", "T", "Rx", "Ry", "Rz", "Rxx", "Ryy", "Rzz", "Phase", "Sx", "CH", "CRz", "Tdg", "Rot", "Prep2", "CRot", "GenD2"]
+    need_of = {"GenD2": 2, "Gen2": 2, "C1": 2, "C2": 3, "iSwap": 2, "Mux": 2, "CC": 3, "Rxx": 2, "Ryy": 2, "Rzz": 2,
                "Phase": 2, "CH": 2, "CRz": 2, "Prep2": 2, "CRot": 2}
     while True:
         k = rng.choice(kinds)
@@ -63,8 +67,10 @@ def rand_spec(rng, sizes, exact, pool=None):
             return [k, th, ps[0], ps[1]]
         if k == "Phase":
             return ["Phase", th, ps]
+        if k.startswith("GenD"):
+            return ["Gen", mat_spec(rand_dense_unitary(rng, 2 ** need)), ps, rand_layout(rng)]
         if k.startswith("Gen"):
-            return ["Gen", mat_spec(rand_phase_perm(rng, 2 ** need)), ps]
+            return ["Gen", mat_spec(rand_phase_perm(rng, 2 ** need)), ps, rand_layout(rng)]
         if k == "iSwap":
             return ["iSwap", ps[0], ps[1]]
         if k == "C1":
@@ -108,6 +114,11 @@ def ref_circuit(sizes, order, specs, tn_prepare=False):
     """independent reference: product of independently embedded gate matrices, first gate first.
     tn_prepare: a PrepareGate enters as the rank-one map |x><0..0| its as_tensornet() is (by design, pinned by
     tests/test_gates.py) instead of the unitary completion as_matrix() returns"""
+    with ref_mode():
+        return _ref_circuit(sizes, order, specs, tn_prepare)
+
+
+def _ref_circuit(sizes, order, specs, tn_prepare):
     F = mk_fields(sizes)
     nw = sum(sizes[i] for i in order)
     M = np.identity(2 ** nw, dtype=complex)
@@ -151,21 +162,87 @@ def classify_tn_error(e, specs):
         return SIG_WRAP
     if isinstance(e, ValueError) and "is not in list" in str(e):
         return SIG_EINSUM
+    if isinstance(e, ValueError) and "tensor data entries for Rn(" in str(e) and "Rot" in kinds:
+        return SIG_ROTNAME
     return "tensornet:crash:" + type(e).__name__
 
 
-def oracle_program(ctx, sizes, specs, desc, other_order=None):
-    """all four views of one program; returns (M over circ.fields(), psi) or None"""
+BUILD_MODES = ("append", "append-shared", "ctor", "ctor-shared", "prepend", "circuits")
+
+
+def build_circuit(specs, F, mode):
+    """the circuit of a program, put together in one of the ways the API offers; "-shared": gates that are equal as
+    VALUES are one and the same object (appended / listed twice), otherwise every gate is its own object"""
+    import qib, json
+    gates, cache = [], {}
+    for s_ in specs:
+        key = json.dumps(s_)
+        if mode.endswith("-shared") and key in cache:
+            gates.append(cache[key])
+        else:
+            cache[key] = build_gate(s_, F)
+            gates.append(cache[key])
+    if mode.startswith("ctor"):
+        return qib.Circuit(gates), gates
+    circ = qib.Circuit()
+    if mode == "prepend":
+        for g in reversed(gates):
+            circ.prepend_gate(g)
+    elif mode == "circuits":
+        h = len(gates) // 2
+        a, b = qib.Circuit(), qib.Circuit(gates[h:])
+        for g in gates[:h]:
+            a.append_gate(g)
+        circ.append_circuit(b)
+        circ.prepend_circuit(a)
+    else:
+        for g in gates:
+            circ.append_gate(g)
+    return circ, gates
+
+
+class Sims:
+    """simulator INSTANCES used for several circuits one after the other (state kept on the instance across runs shows)"""
+
+    def __init__(self):
+        import qib
+        self.sv = qib.simulator.StatevectorSimulator()
+        self.tn = qib.simulator.TensorNetworkSimulator()
+        self.hist = []          # descriptors of the programs run so far
+        self.F = {}
+
+    def fields(self, sizes):
+        """ONE list of field objects per (sizes, mode): the circuits run on these instances are built over the same
+        fields (several circuits on one register)"""
+        import json
+        key = json.dumps([sizes, dict(C04mod.FMODE)], sort_keys=True)
+        if key not in self.F:
+            self.F[key] = mk_fields(sizes)
+        return self.F[key]
+
+
+def oracle_program_seq(ctx, progs):
+    sims = Sims()
+    for d in progs:
+        oracle_program(ctx, d["sizes"], d["specs"], d, other_order=d.get("order"), sims=sims)
+
+
+def oracle_program(ctx, sizes, specs, desc, other_order=None, sims=None):
+    """all four views of one program; returns (M over circ.fields(), psi) or None.
+    desc["fmode"]: how fields / lattices / qubit objects / parameters are made; desc["build"]: how the circuit is put
+    together; other_order may list a field twice or list fields the circuit does not use"""
+    with field_mode(desc.get("fmode")):
+        return _oracle_program(ctx, sizes, specs, desc, other_order, sims)
+
+
+def _oracle_program(ctx, sizes, specs, desc, other_order, sims):
     import qib
     from qib.tensor_network.tensor_network import to_full_tensor
-    F = mk_fields(sizes)
-    gates = [build_gate(s, F) for s in specs]
-    circ = qib.Circuit()
-    for g in gates:
-        circ.append_gate(g)
+    F = sims.fields(sizes) if sims is not None else mk_fields(sizes)
+    circ, gates = build_circuit(specs, F, desc.get("build", "append"))
     order = fields_of_program(specs)
-    if [F.index(f) for f in circ.fields()] != order:
-        ctx.fail("Circuit.fields:order-of-first-appearance", desc, order, [F.index(f) for f in circ.fields()])
+    if [fidx(F, f) for f in circ.fields()] != order:
+        ctx.fail("Circuit.fields:order-of-first-appearance", desc, order, [fidx(F, f) for f in circ.fields()])
         return None
     fl = [F[i] for i in order]
     nw = sum(sizes[i] for i in order)
@@ -186,6 +263,9 @@ def oracle_program(ctx, sizes, specs, desc, other_order=None):
         if not same(M2, ref_circuit(sizes, other_order, specs)):
             ctx.fail("as_matrix:not-product-of-embedded-gates-in-application-order", dict(desc, order=other_order),
                      "E(g_n)...E(g_1)", "differs")
+        # and the first field list once more (the same query after a different one)
+        if not same(dense(circ.as_matrix(fl)), R):
+            ctx.fail("as_matrix:repeated-query-differs", dict(desc, order=other_order), "the matrix of the first query", "differs")
     if not np.allclose(M @ M.conj().T, np.identity(2 ** nw), atol=1e-10):
         ctx.fail("as_matrix:not-unitary", desc)
     # statevector simulator
@@ -194,10 +274,25 @@ def oracle_program(ctx, sizes, specs, desc, other_order=None):
         psi = np.asarray(qib.simulator.StatevectorSimulator().run(circ), dtype=complex).reshape(-1)
         if not same(psi, M[:, 0]):
             ctx.fail("statevector:not-first-column", desc, "column 0 of as_matrix", "differs")
+        elif not same(psi, R[:, 0]):
+            ctx.fail("statevector:not-first-column", desc, "column 0 of E(g_n)...E(g_1)", "differs")
         if abs(np.vdot(psi, psi) - 1) > 1e-10:
             ctx.fail("statevector:not-unit-norm", desc, 1, float(abs(np.vdot(psi, psi))))
     except Exception as e:
         ctx.fail("statevector:crash:" + type(e).__name__, desc, "state", repr(e))
+    plain = {k_: v_ for k_, v_ in desc.items() if k_ != "progs"}
+    if other_order is not None:
+        plain = dict(plain, order=other_order)
+    if sims is not None:
+        sims.hist.append(plain)
+        try:
+            psi2 = np.asarray(sims.sv.run(circ), dtype=complex).reshape(-1)
+            if not same(psi2, R[:, 0]):
+                ctx.fail("statevector:simulator-instance-used-before:not-first-column",
+                         {"kind": "program_seq", "progs": list(sims.hist)}, "column 0 of the LAST program's matrix", "differs")
+        except Exception as e:
+            ctx.fail("statevector:simulator-instance-used-before:crash:" + type(e).__name__,
+                     {"kind": "program_seq", "progs": list(sims.hist)}, "state", repr(e)[:200])
     # tensor network view.  Programs with a (top-level) PrepareGate: its network is the rank-one map |x><0..0|, not the
     # unitary of as_matrix() (known finding SIG_PREP, reported when the two differ); the network machinery is still
     # checked exactly, against the product in which that gate enters as the rank-one map
@@ -222,6 +317,7 @@ def oracle_program(ctx, sizes, specs, desc, other_order=None):
                     ctx.fail("as_tensornet:contraction-differs-from-matrix", desc, "as_matrix", "differs")
         except Exception as e:
             ctx.fail(classify_tn_error(e, specs), desc, "network contracting to as_matrix", repr(e)[:200])
+        tn_ok = False
         try:
             out = np.asarray(qib.simulator.TensorNetworkSimulator().run(circ), dtype=complex).reshape(-1)
             ctx.count("tn_simulator_ran")
@@ -229,12 +325,85 @@ def oracle_program(ctx, sizes, specs, desc, other_order=None):
                 ctx.fail(SIG_PREP, {"kind": "program", "sizes": sizes, "specs": specs}, "column 0 of as_matrix", "differs")
             if not np.allclose(out, Mtn[:, 0], rtol=0, atol=1e-10):
                 ctx.fail("tn_simulator:not-first-column", desc, "column 0 of as_matrix", "differs")
+            else:
+                tn_ok = True
             if not has_prep and abs(np.vdot(out, out) - 1) > 1e-9:
                 ctx.fail("tn_simulator:not-unit-norm", desc)
         except Exception as e:
             ctx.fail(classify_tn_error(e, specs).replace("as_tensornet:", "as_tensornet:").replace("tensornet:crash", "tn_simulator:crash"),
                      desc, "state", repr(e)[:200])
+        if sims is not None and tn_ok:
+            try:
+                out2 = np.asarray(sims.tn.run(circ), dtype=complex).reshape(-1)
+                if not np.allclose(out2, Mtn[:, 0], rtol=0, atol=1e-10):
+                    ctx.fail("tn_simulator:simulator-instance-used-before:not-first-column",
+                             {"kind": "program_seq", "progs": list(sims.hist)}, "column 0 of the LAST program's matrix", "differs")
+            except Exception as e:
+                ctx.fail("tn_simulator:simulator-instance-used-before:crash:" + type(e).__name__,
+                         {"kind": "program_seq", "progs": list(sims.hist)}, "state", repr(e)[:200])
     return M, psi, order
+
+
+# ----------------------------------------------------------------------------- registers of 7..12 wires (numpy-only references)
+def apply_to_state(psi, nw, ws, gm):
+    """numpy-only application of a gate matrix on wires ws (first = most significant gate index) to a state vector"""
+    m = len(ws)
+    t = np.tensordot(np.asarray(gm, dtype=complex).reshape((2,) * (2 * m)), psi.reshape((2,) * nw),
+                     axes=(list(range(m, 2 * m)), list(ws)))
+    return np.moveaxis(t, list(range(m)), list(ws)).reshape(-1)
+
+
+def oracle_program_large(ctx, sizes, specs, desc):
+    """views of a program on a register too large for dense matrices: statevector simulator, the sparse as_matrix applied
+    to e_0 and to a fixed integer vector, TensorNetworkSimulator (when the network stays small); reference = the gates'
+    own matrices applied to the state tensor by tensordot"""
+    with field_mode(desc.get("fmode")):
+        return _oracle_program_large(ctx, sizes, specs, desc)
+
+
+def _oracle_program_large(ctx, sizes, specs, desc):
+    import qib
+    F = mk_fields(sizes)
+    circ, gates = build_circuit(specs, F, desc.get("build", "append"))
+    order = fields_of_program(specs)
+    if [fidx(F, f) for f in circ.fields()] != order:
+        ctx.fail("Circuit.fields:order-of-first-appearance", desc, order, [fidx(F, f) for f in circ.fields()])
+        return
+    nw = sum(sizes[i] for i in order)
+    N = 2 ** nw
+    e0 = np.zeros(N, dtype=complex)
+    e0[0] = 1
+    v = ((np.arange(N) * 7 + 3) % 11 - 5) + 1j * ((np.arange(N) * 5 + 1) % 7 - 3)      # fixed, no symmetry
+    r0, rv = e0, v.astype(complex)
+    with ref_mode():
+        ref_gates = [build_gate(s_, mk_fields(sizes)) for s_ in specs]
+    for s_, g in zip(specs, ref_gates):
+        ws = [wire_of(sizes, order, p) for p in spec_particles(s_)]
+        r0, rv = apply_to_state(r0, nw, ws, g.as_matrix()), apply_to_state(rv, nw, ws, g.as_matrix())
+    scale = max(1.0, float(np.max(np.abs(rv))))
+    try:
+        psi = np.asarray(qib.simulator.StatevectorSimulator().run(circ), dtype=complex).reshape(-1)
+        if psi.shape != r0.shape or not np.allclose(psi, r0, rtol=0, atol=1e-12):
+            ctx.fail("statevector:not-first-column", desc, "gates applied to |0..0> in list order", "differs")
+    except Exception as e:
+        ctx.fail("statevector:crash:" + type(e).__name__, desc, "state", repr(e)[:200])
+    try:
+        M = circ.as_matrix([F[i] for i in order])
+        if tuple(M.shape) != (N, N) or not np.allclose(M @ e0, r0, rtol=0, atol=1e-12) \
+                or not np.allclose(M @ v, rv, rtol=0, atol=1e-11 * scale):
+            ctx.fail("as_matrix:not-product-of-embedded-gates-in-application-order", desc, "E(g_n)...E(g_1) applied to two vectors", "differs")
+    except Exception as e:
+        ctx.fail("as_matrix:crash:" + type(e).__name__, desc, "matrix", repr(e)[:200])
+    nidx = nw + sum(len(spec_particles(s_)) for s_ in specs)
+    tops = set(s_[0] for s_ in specs)
+    if nidx <= 40 and not tops & {"Rxx", "Ryy", "Rzz", "iSwap", "Prep"}:
+        try:
+            out = np.asarray(qib.simulator.TensorNetworkSimulator().run(circ), dtype=complex).reshape(-1)
+            ctx.count("tn_simulator_ran_large")
+            if out.shape != r0.shape or not np.allclose(out, r0, rtol=0, atol=1e-10):
+                ctx.fail("tn_simulator:not-first-column", desc, "gates applied to |0..0> in list order", "differs")
+        except Exception as e:
+            ctx.fail("tn_simulator:crash:" + type(e).__name__, desc, "state", repr(e)[:200])
 
 
 # ----------------------------------------------------------------------------- histories
@@ -244,7 +413,7 @@ ONE = ("I", "X", "Y", "Z", "H", "S", "Sdg", "T", "Tdg", "Sx")
 def pid(q, F):
     if q is None:
         return -1
-    return F.index(q.field) * 16 + q.index
+    return fidx(F, q.field) * 16 + q.index
 
 
 def thc(x):
@@ -505,7 +674,7 @@ class Observer:
             # simulators and tensor network: over circ.fields()
             forder = self.ref.fields(values)
             try:
-                cf = [F.index(f) for f in circ.fields()]
+                cf = [fidx(F, f) for f in circ.fields()]
             except Exception as e:
                 ctx.fail("Circuit.fields:crash:" + type(e).__name__, dict(d, circuit=c), forder, repr(e)[:200])
                 return False
@@ -641,6 +810,12 @@ BUILDER_OPS = ("append_gate", "prepend_gate", "append_circuit", "prepend_circuit
 
 
 def run_history(ctx, rng, sizes, evs, desc, check=True, tn=True):
+    """desc["fmode"]: how fields / lattices / qubit objects / parameters are made (see checks.C04.FMODE)"""
+    with field_mode(desc.get("fmode")):
+        return _run_history(ctx, rng, sizes, evs, desc, check, tn)
+
+
+def _run_history(ctx, rng, sizes, evs, desc, check=True, tn=True):
     """execute a history on the implementation; returns (model events or None, final circuit values, final handle values).
     evs entries "mut"/"mutG"/"setkid" with symbolic choices are resolved here (deterministically from rng) and the
     resolved event list is returned in desc['events'] for replay.
@@ -846,6 +1021,11 @@ def run_history(ctx, rng, sizes, evs, desc, check=True, tn=True):
 
 def oracle_builders(ctx, sizes, ops, desc):
     """a sequence of builder calls (gates / circuits built from gate lists) on an empty circuit"""
+    with field_mode(desc.get("fmode")):
+        return _oracle_builders(ctx, sizes, ops, desc)
+
+
+def _oracle_builders(ctx, sizes, ops, desc):
     import qib
     F = mk_fields(sizes)
     order = list(range(len(sizes)))
@@ -913,6 +1093,116 @@ def oracle_array_alias(ctx):
         ctx.fail(SIG_ARRAY, {"kind": "array_alias",
                              "program": "g = GeneralGate(U, 1).on(q0); c.append_gate(g); g.mat[:] = V   (same: RotationGate.ntheta)"},
                  "c.as_matrix unchanged", "changed through " + ", ".join(bad))
+
+
+# ----------------------------------------------------------------------------- gates that differ in ONE coordinate
+def sibling_families(rng, sizes):
+    """families of gates that agree in everything but ONE coordinate of their description - order of the particles
+    (same SET: control/target swapped, the same dense matrix on permuted wires, iSWAP/Rzz with the arguments exchanged),
+    one particle, the field of a particle (same site of another register), a parameter, the control state, the class of
+    the gate or of its target, the memory layout of the matrix - plus identical gates.  A view that identifies gates by
+    less than their full value (a cache keyed on the class and the SET of particles, on the matrix bytes, on the
+    particles without the parameters, ...) confuses two members of a family.  (tag, [spec, spec, ...])"""
+    allp = [[fi, i] for fi, n in enumerate(sizes) for i in range(n)]
+    a, b, c = [list(x) for x in rng.sample(allp, 3)]
+    th1, th2 = rng.sample([x / 8.0 for x in range(-12, 13) if x], 2)
+    U2, V2 = rand_phase_perm(rng, 4), rand_phase_perm(rng, 4)
+    while np.array_equal(U2, V2) or np.array_equal(U2, U2.T):
+        U2 = rand_phase_perm(rng, 4)
+    U3 = rand_phase_perm(rng, 8)
+    u2, v2, u3 = mat_spec(U2), mat_spec(V2), mat_spec(U3)
+    fam = []
+    # -- particle ORDER, same set
+    for T in (["X"], ["Y"], ["S"], ["H"], ["Rz", th1]):
+        fam.append(("order:control<->target:" + T[0], [["C", [1], [a], T + [b]], ["C", [1], [b], T + [a]]]))
+    fam.append(("order:negated-control<->target", [["C", [0], [a], ["X", b]], ["C", [0], [b], ["X", a]]]))
+    fam.append(("order:two-controls", [["C", [1, 0], [a, b], ["X", c]], ["C", [1, 0], [b, a], ["X", c]],
+                                       ["C", [1, 0], [c, b], ["X", a]], ["C", [1, 0], [a, c], ["X", b]]]))
+    fam.append(("order:nested-controls", [["C", [1], [a], ["C", [0], [b], ["Y", c]]], ["C", [1], [b], ["C", [0], [a], ["Y", c]]],
+                                          ["C", [1], [c], ["C", [0], [b], ["Y", a]]]]))
+    fam.append(("order:general-2", [["Gen", u2, [a, b], rand_layout(rng)], ["Gen", u2, [b, a], rand_layout(rng)]]))
+    fam.append(("order:general-3", [["Gen", u3, list(o), rand_layout(rng)] for o in itertools.permutations([a, b, c])]))
+    fam.append(("order:controlled-general", [["C", [1], [o[0]], ["Gen", u2, [o[1], o[2]], rand_layout(rng)]]
+                                             for o in itertools.permutations([a, b, c])]))
+    d2, d3 = mat_spec(rand_dense_unitary(rng, 4)), mat_spec(rand_dense_unitary(rng, 8))
+    fam.append(("order:dense-general-2", [["Gen", d2, [a, b], rand_layout(rng)], ["Gen", d2, [b, a], rand_layout(rng)]]))
+    fam.append(("order:dense-general-3", [["Gen", d3, list(o), rand_layout(rng)] for o in itertools.permutations([a, b, c])]))
+    fam.append(("order:iswap", [["iSwap", a, b], ["iSwap", b, a]]))
+    for R in ("Rxx", "Ryy", "Rzz"):
+        fam.append(("order:" + R, [[R, th1, a, b], [R, th1, b, a]]))
+    fam.append(("order:phase", [["Phase", th1, [a, b]], ["Phase", th1, [b, a]]]))
+    fam.append(("order:multiplexed", [["Mux", [a], [["X", b], ["S", b]]], ["Mux", [b], [["X", a], ["S", a]]]]))
+    fam.append(("order:prepare", [["Prep", [0.5, 0.25, -0.125, 0.125], [a, b]], ["Prep", [0.5, 0.25, -0.125, 0.125], [b, a]]]))
+    # -- one particle replaced
+    fam.append(("particle:target", [["C", [1], [a], ["X", b]], ["C", [1], [a], ["X", c]]]))
+    fam.append(("particle:control", [["C", [1], [a], ["Y", b]], ["C", [1], [c], ["Y", b]]]))
+    fam.append(("particle:general", [["Gen", u2, [a, b], rand_layout(rng)], ["Gen", u2, [a, c], rand_layout(rng)]]))
+    fam.append(("particle:one-qubit", [["S", a], ["S", b]]))
+    # -- the same site of another register (fields of equal size)
+    twins = [(p, q) for p in allp for q in allp if p[0] != q[0] and p[1] == q[1]]
+    if twins:
+        p_, q_ = rng.choice(twins)
+        r_ = rng.choice([x for x in allp if x != p_ and x != q_])
+        fam.append(("field:one-qubit", [["Y", p_], ["Y", q_]]))
+        fam.append(("field:control", [["C", [1], [p_], ["X", r_]], ["C", [1], [q_], ["X", r_]]]))
+        fam.append(("field:same-site-control-and-target", [["C", [1], [p_], ["X", q_]], ["C", [1], [q_], ["X", p_]]]))
+        fam.append(("field:general", [["Gen", u2, [p_, r_], rand_layout(rng)], ["Gen", u2, [q_, r_], rand_layout(rng)]]))
+    # -- a parameter
+    for R in ("Rx", "Ry", "Rz"):
+        fam.append(("parameter:" + R, [[R, th1, a], [R, th2, a], [R, -th1, a]]))
+    # parameters that agree to eight printed digits (a view naming / caching gates by a rounded or printed parameter)
+    eps = 2.0 ** -28
+    for R in ("Rx", "Ry", "Rz"):
+        fam.append(("parameter:nearly-equal:" + R, [[R, th1, a], [R, th1 + eps, b]]))
+    fam.append(("parameter:nearly-equal:phase", [["Phase", th1, [a, b]], ["Phase", th1 + eps, [a, b]]]))
+    fam.append(("parameter:nearly-equal:controlled-rz", [["C", [1], [a], ["Rz", th1, b]], ["C", [1], [a], ["Rz", th1 + eps, b]]]))
+    fam.append(("parameter:nearly-equal:rotation", [["Rot", [0.5, 0.25, 0.125], a], ["Rot", [0.5, 0.25, 0.125 + eps], b]]))
+    fam.append(("parameter:Rzz", [["Rzz", th1, a, b], ["Rzz", th2, a, b]]))
+    fam.append(("parameter:phase", [["Phase", th1, [a, b]], ["Phase", th2, [a, b]]]))
+    fam.append(("parameter:rotation", [["Rot", [0.25, -0.5, 0.75], a], ["Rot", [0.25, 0.5, 0.75], a]]))
+    fam.append(("parameter:controlled-rz", [["C", [1], [a], ["Rz", th1, b]], ["C", [1], [a], ["Rz", th2, b]]]))
+    fam.append(("parameter:general-matrix", [["Gen", u2, [a, b], rand_layout(rng)], ["Gen", v2, [a, b], rand_layout(rng)]]))
+    fam.append(("parameter:general-matrix-transposed-same-memory", [["Gen", u2, [a, b], "C"], ["Gen", mat_spec(U2.T), [a, b], "T"]]))
+    fam.append(("parameter:prepare", [["Prep", [0.5, 0.25, -0.125, 0.125], [a, b]], ["Prep", [0.125, 0.25, -0.5, 0.125], [a, b]]]))
+    # -- control state
+    fam.append(("ctrl_state:1", [["C", [1], [a], ["X", b]], ["C", [0], [a], ["X", b]]]))
+    fam.append(("ctrl_state:2", [["C", [1, 0], [a, b], ["Z", c]], ["C", [0, 1], [a, b], ["Z", c]], ["C", [1, 1], [a, b], ["Z", c]]]))
+    # -- class of the gate / of the target
+    fam.append(("class:one-qubit", [["X", a], ["Y", a], ["Z", a], ["H", a], ["S", a], ["Sdg", a], ["T", a], ["Tdg", a], ["Sx", a]]))
+    fam.append(("class:rotation-axis", [["Rx", th1, a], ["Ry", th1, a], ["Rz", th1, a]]))
+    fam.append(("class:two-qubit-rotation", [["Rxx", th1, a, b], ["Ryy", th1, a, b], ["Rzz", th1, a, b]]))
+    fam.append(("class:target", [["C", [1], [a], ["X", b]], ["C", [1], [a], ["Y", b]], ["C", [1], [a], ["Z", b]]]))
+    fam.append(("class:multiplexed-targets", [["Mux", [a], [["X", b], ["Z", b]]], ["Mux", [a], [["Z", b], ["X", b]]]]))
+    fam.append(("class:general-vs-named", [["Gen", mat_spec(np.array([[0, 1], [1, 0]])), [a], rand_layout(rng)], ["X", a]]))
+    # -- same value, different memory layout / identical
+    fam.append(("layout:general", [["Gen", u2, [a, b], "C"], ["Gen", u2, [a, b], "F"], ["Gen", u2, [a, b], "c64"]]))
+    fam.append(("identical:controlled", [["C", [1], [a], ["X", b]], ["C", [1], [a], ["X", b]]]))
+    fam.append(("identical:hadamard", [["H", a], ["H", a]]))
+    return fam
+
+
+def sibling_programs(rng, sizes, fam):
+    """programs around one family: a layer that makes |0..0> generic (so that the first column sees every member), then
+    the members in several interleavings"""
+    allp = [[fi, i] for fi, n in enumerate(sizes) for i in range(n)]
+    tag, gs = fam
+    pre = [["Ry", (3 + 2 * i) / 8.0, p] for i, p in enumerate(allp)] + [["Rz", (1 + i) / 8.0, p] for i, p in enumerate(allp)]
+    g0, g1 = gs[0], gs[1]
+    bodies = [list(gs) + [g0], [g1, g0], [g0, g1, g0, g1], [g0, g0, g1]]
+    if len(gs) > 2:
+        r = list(gs)
+        rng.shuffle(r)
+        bodies.append(r + r[:1])
+    out = []
+    for i, body in enumerate(bodies):
+        if i % 3 == 0:
+            head = pre
+        elif i % 3 == 1:        # a basis state (exact programs: also compared with the Coq model)
+            head = [["X", p] for p in rng.sample(allp, rng.randint(1, len(allp)))]
+        else:
+            head = [["X", p] for p in rng.sample(allp, 1)] + [["Ry", 0.375, p] for p in allp[1:]]
+        out.append(jcopy(head) + jcopy(body))
+    return out
 
 
 # ----------------------------------------------------------------------------- the check
@@ -991,40 +1281,7 @@ def run(ctx):
                                 ct.lst([gval_term(v) for v in hvals])),
             {"kind": "history", "sizes": sizes, "events": events}, nontrivial)
 
-    # ------------------------------------------------------------ fixed inputs of the known defects
-    fixed = [
-        ([5], [["Rzz", 0.375, (0, 0), (0, 3)]]),
-        ([5], [["Rxx", 0.5, (0, 1), (0, 2)], ["H", (0, 0)]]),
-        ([4], [["iSwap", (0, 0), (0, 3)]]),
-        ([5], [["H", (0, 0)], ["H", (0, 1)]]),
-        ([4], [["C", [1], [(0, 2)], ["X", (0, 3)]]]),
-        ([2, 3], [["H", (0, 1)], ["C", [0], [(0, 1)], ["X", (1, 2)]]]),
-        ([3], [["X", (0, 2)], ["Prep", [0.5, 0.25, -0.125, 0.125], [(0, 2), (0, 0)]]]),
-    ]
-    for sizes, specs in fixed:
-        specs = jsonable(specs)
-        oracle_program(ctx, sizes, specs, {"kind": "program", "sizes": sizes, "specs": specs})
-        ctx.count("program_fixed")
-
-    # ------------------------------------------------------------ random programs, all views
-    size_sets = [[2], [3], [4], [5], [2, 2], [1, 3], [3, 1], [2, 3], [1, 2, 2], [2, 1, 2], [1, 1, 1]]
-    nprog = 400 if ctx.thorough else 120
-    for t in range(nprog):
-        sizes = rng.choice(size_sets)
-        exact = rng.random() < 0.5
-        specs = rand_program(rng, sizes, exact, 10 if rng.random() < 0.7 else 4)
-        # make sure every field is used at least sometimes not: idle fields are allowed (as_matrix order may list them)
-        desc = {"kind": "program", "sizes": sizes, "specs": specs}
-        used = fields_of_program(specs)
-        oo = list(range(len(sizes)))
-        rng.shuffle(oo)
-        res = oracle_program(ctx, sizes, specs, desc, other_order=oo)
-        ctx.count("program_len=%d" % len(specs))
-        ctx.count("program_fields=%d" % len(sizes))
-        for s in specs:
-            ctx.count("gate_" + s[0])
-        if res is None:
-            continue
+    def program_cases(sizes, specs, res):
         M, psi, order = res
         nw = sum(sizes[i] for i in order)
         wires = [w for s in specs for w in [wire_of(sizes, order, p) for p in spec_particles(s)]]
@@ -1036,6 +1293,119 @@ def run(ctx):
             add("CCirc %s %s %s" % (ct.nat(nw), gs, ct.zimat(M)), dict(short, view="as_matrix"), nt)
             if psi is not None:
                 add("CSv %s %s %s" % (ct.nat(nw), gs, ct.lst([ct.zi(x) for x in psi])), dict(short, view="statevector"), nt)
+
+    # ------------------------------------------------------------ fixed inputs of the known defects
+    fixed = [
+        ([5], [["Rzz", 0.375, (0, 0), (0, 3)]]),
+        ([5], [["Rxx", 0.5, (0, 1), (0, 2)], ["H", (0, 0)]]),
+        ([4], [["iSwap", (0, 0), (0, 3)]]),
+        ([5], [["H", (0, 0)], ["H", (0, 1)]]),
+        ([4], [["C", [1], [(0, 2)], ["X", (0, 3)]]]),
+        ([2, 3], [["H", (0, 1)], ["C", [0], [(0, 1)], ["X", (1, 2)]]]),
+        ([3], [["X", (0, 2)], ["Prep", [0.5, 0.25, -0.125, 0.125], [(0, 2), (0, 0)]]]),
+        ([2], [["Rot", [0.5, 0.25, 0.125], (0, 0)], ["Rot", [0.5, 0.25, 0.125 + 2.0 ** -28], (0, 1)]]),
+    ]
+    for sizes, specs in fixed:
+        specs = jsonable(specs)
+        oracle_program(ctx, sizes, specs, {"kind": "program", "sizes": sizes, "specs": specs})
+        ctx.count("program_fixed")
+
+    # ------------------------------------------------------------ random programs, all views
+    size_sets = [[2], [3], [4], [5], [2, 2], [1, 3], [3, 1], [2, 3], [1, 2, 2], [2, 1, 2], [1, 1, 1]]
+    nprog = 400 if ctx.thorough else 120
+    sims = Sims()
+    for t in range(nprog):
+        sizes = rng.choice(size_sets)
+        exact = rng.random() < 0.5
+        fm = rand_fmode(rng, sizes) if rng.random() < 0.5 else {}
+        with field_mode(fm):
+            specs = rand_program(rng, sizes, exact, 10 if rng.random() < 0.7 else 4)
+        # make sure every field is used at least sometimes not: idle fields are allowed (as_matrix order may list them)
+        desc = {"kind": "program", "sizes": sizes, "specs": specs}
+        if fm:
+            desc["fmode"] = fm
+            for k_ in fm:
+                ctx.count("program_fmode_" + k_)
+        if rng.random() < 0.5:
+            desc["build"] = rng.choice(BUILD_MODES)
+        ctx.count("program_build_" + desc.get("build", "append"))
+        used = fields_of_program(specs)
+        oo = list(range(len(sizes)))
+        rng.shuffle(oo)
+        if len(sizes) >= 2 and rng.random() < 0.3:
+            # a field list naming one field twice (all fields the circuit uses are listed)
+            oo = rng.choice([o for o in orders_with_repeats(len(sizes)) if set(o) == set(range(len(sizes)))]
+                            if sum(sizes) <= 4 else [oo])
+            if len(set(oo)) < len(oo):
+                ctx.count("program_as_matrix_field_listed_twice")
+        if t % 8 == 0:
+            sims = Sims()               # simulator instances live for eight programs
+        res = oracle_program(ctx, sizes, specs, desc, other_order=oo, sims=sims)
+        ctx.count("program_len=%d" % len(specs))
+        ctx.count("program_fields=%d" % len(sizes))
+        for s in specs:
+            ctx.count("gate_" + s[0])
+        if res is None:
+            continue
+        program_cases(sizes, specs, res)
+
+    # ------------------------------------------------------------ gates that differ in ONE coordinate, in one circuit
+    # (all four views; circuits put together in every way; simulator instances shared by eight programs)
+    fam_cfgs = [([3], {}), ([2, 2], {"lat": [0, 0], "intern": True})]
+    if ctx.thorough:
+        fam_cfgs += [([4], {"intern": True}), ([2, 2], {}), ([1, 3], {"num": "np64"}), ([2, 2, 2], {"lat": [0, 1, 0]})]
+    nfam = 0
+    for sizes, fm in fam_cfgs:
+        for fam in sibling_families(rng, sizes):
+            for specs in sibling_programs(rng, sizes, fam):
+                specs = jsonable(specs)
+                desc = {"kind": "program", "sizes": sizes, "specs": specs, "family": fam[0]}
+                if fm:
+                    desc["fmode"] = fm
+                desc["build"] = rng.choice(BUILD_MODES)
+                if nfam % 8 == 0:
+                    sims = Sims()
+                nfam += 1
+                res = oracle_program(ctx, sizes, specs, desc, sims=sims)
+                ctx.count("program_sibling_family")
+                ctx.count("program_siblings_" + fam[0].split(":")[0])
+                ctx.count("program_build_" + desc["build"])
+                ctx.nontriv({"kind": "program-siblings", "family": fam[0], "sizes": sizes, "n": len(specs)})
+                if res is not None:
+                    with field_mode(fm):
+                        program_cases(sizes, specs, res)
+
+    # ------------------------------------------------------------ registers of 7..12 wires
+    big_sets = [[7], [8], [3, 5], [4, 4]]
+    for t in range(24 if ctx.thorough else 8):
+        sizes = rng.choice(big_sets)
+        fm = rand_fmode(rng, sizes) if rng.random() < 0.5 else {}
+        with field_mode(fm):
+            specs = rand_program(rng, sizes, rng.random() < 0.5, 6)
+        desc = {"kind": "program", "sizes": sizes, "specs": specs}
+        if fm:
+            desc["fmode"] = fm
+        ctx.count("program_wires=%d" % sum(sizes))
+        oracle_program(ctx, sizes, specs, desc)
+    huge_sets = [[9], [10], [12], [5, 6], [4, 4, 4], [3, 7, 1], [11], [2, 8]]
+    for t in range(30 if ctx.thorough else 10):
+        sizes = rng.choice(huge_sets)
+        fm = rand_fmode(rng, sizes) if rng.random() < 0.5 else {}
+        with field_mode(fm):
+            specs = rand_program(rng, sizes, rng.random() < 0.5, 6)
+            if rng.random() < 0.5:
+                fam = rng.choice(sibling_families(rng, sizes))
+                specs = [["Ry", (3 + 2 * i) / 8.0, p] for i, p in enumerate(spec_particles(fam[1][0]))] + jcopy(fam[1]) + specs[:3]
+        specs = jsonable(specs)
+        desc = {"kind": "program_large", "sizes": sizes, "specs": specs}
+        if fm:
+            desc["fmode"] = fm
+        if rng.random() < 0.5:
+            desc["build"] = rng.choice(BUILD_MODES)
+        ctx.count("program_large")
+        ctx.count("program_wires=%d" % sum(sizes[i] for i in fields_of_program(specs)))
+        ctx.nontriv({"kind": "program_large", "sizes": sizes, "gates": [s_[0] for s_ in specs]})
+        oracle_program_large(ctx, sizes, specs, desc)
 
     # ------------------------------------------------------------ builder programs on the value level
     for t in range(150 if ctx.thorough else 40):
@@ -1166,20 +1536,24 @@ def run(ctx):
                               ["append_gate", 1, 0], ["newC", [1], [[0, 3]], 1], ["prepend_gate", 1, 2],
                               [op1, 0, arg(op1)], [op2, 0, arg(op2)], ["mutR", 0, [], ["on1", free]], [op1, 0, arg(op1)],
                               [op2, 0, arg(op2)]])
-    for evs in scripted5:
+    for n_, evs in enumerate(scripted5):
         sizes = [4]
         evs = jsonable(evs)
         desc = {"kind": "history", "sizes": sizes, "events": evs}
+        if n_ % 2:
+            desc["fmode"] = {"intern": True}          # one Qubit object per site, shared by all gates of the history
         res = run_history(ctx, rng, sizes, evs, desc)
         ctx.count("history_scripted_circuits_from_circuits")
         if res is None:
             continue
         hist_case(res, sizes, desc["events"])
 
-    for evs in scripted4:
+    for n_, evs in enumerate(scripted4):
         sizes = [4]
         evs = jsonable(evs)
         desc = {"kind": "history", "sizes": sizes, "events": evs}
+        if n_ % 2:
+            desc["fmode"] = {"intern": True}
         res = run_history(ctx, rng, sizes, evs, desc)
         ctx.count("history_scripted_each_mutation")
         for e in evs:
@@ -1201,10 +1575,15 @@ def run(ctx):
     # ------------------------------------------------------------ histories with mutations
     nh = 500 if ctx.thorough else 160
     for t in range(nh):
-        sizes = rng.choice([[3], [4], [2, 2], [1, 3]])
+        sizes = rng.choice([[3], [4], [2, 2], [1, 3], [2, 2]])
         want = rng.choice([None, "C", "Mux", "Mux"])
         evs = rand_history(rng, sizes, rng.randint(4, 12), want)
         desc = {"kind": "history", "sizes": sizes, "events": evs}
+        fm = rand_fmode(rng, sizes) if rng.random() < 0.5 else {}
+        if fm:
+            desc["fmode"] = fm
+            for k_ in fm:
+                ctx.count("history_fmode_" + k_)
         res = run_history(ctx, rng, sizes, evs, desc)
         ctx.count("history")
         if res is None:
@@ -1248,6 +1627,10 @@ def replay(ctx, data):
     k = inp.get("kind")
     if k == "program":
         oracle_program(ctx, inp["sizes"], inp["specs"], inp, other_order=inp.get("order"))
+    elif k == "program_seq":
+        oracle_program_seq(ctx, inp["progs"])
+    elif k == "program_large":
+        oracle_program_large(ctx, inp["sizes"], inp["specs"], inp)
     elif k == "history":
         run_history(ctx, random.Random(0), inp["sizes"], inp["events"], dict(inp))
     elif k == "builders":
